@@ -223,7 +223,7 @@ def exp_cap(src_core):
 
 def lit_contracts(cap, fixed):
     d = {}
-    cap_hint = 'assert(MAX_ACCUM_EXP == 0x10000000000000000000000000) by (compute_only); ' if fixed else ''
+    cap_hint = 'assert(0x20000000000000000 <= MAX_ACCUM_EXP && MAX_ACCUM_EXP <= 0x1000000000000000000000000000000) by (compute_only); ' if fixed else ''
     d['new'] = C(post=[('new.bytes', 'r.bytes@ == bytes@')])
     d['is_empty'] = C(post=[('is_empty.value', 'r == (self.bytes@.len() == 0)')])
     d['len'] = C(post=[('len.value', 'r == self.bytes@.len()')])
@@ -288,7 +288,7 @@ STR_TO_DEC_ENTRY = '''
 def str_to_dec_contract(cap, fixed):
     entry = STR_TO_DEC_ENTRY
     if fixed:
-        entry += '    assert(MAX_ACCUM_EXP == 0x10000000000000000000000000) by (compute_only);\n'
+        entry += '    assert(0x20000000000000000 <= MAX_ACCUM_EXP && MAX_ACCUM_EXP <= 0x1000000000000000000000000000000) by (compute_only);\n'
     return C(
         post=[('C06.str_to_dec.ok', 'r is Ok ==> str_to_dec_spec(%s) == Some((r->Ok_0.0 as int, r->Ok_0.1 as int))' % S),
               ('C06.str_to_dec.err', 'r is Err ==> str_to_dec_spec(%s) is None' % S),
